@@ -444,6 +444,11 @@ type spec struct {
 	DNS      bool
 	Prelude  []sym
 	Bubble   bool
+	// SetCounter: once the prelude has been played the session manager's 16-bit id
+	// counter is placed at Counter (the value it has after that many sessions were
+	// created over the server's life time), so that later PADRs run near / across its wrap.
+	SetCounter bool
+	Counter    uint16
 }
 
 var (
@@ -539,6 +544,8 @@ type caseCtx struct {
 	created int
 	incon   string
 	obs     *obsBuf
+	lastEm  []outFrame // what the server sent in answer to the latest frame
+	naive   int        // next id the counter would issue if nothing were occupied (-1 unknown); aiming and evidence only
 }
 
 func newCase(sp *spec, ob *obsBuf) (*caseCtx, error) {
@@ -579,7 +586,7 @@ func newCase(sp *spec, ob *obsBuf) (*caseCtx, error) {
 	if sp.Bubble {
 		depth = 8
 	}
-	c := &caseCtx{sp: sp, srv: srv, sock: pppoe.VerifC04NewSocket(depth), nonce: userNonce.Add(1), obs: ob}
+	c := &caseCtx{sp: sp, srv: srv, sock: pppoe.VerifC04NewSocket(depth), nonce: userNonce.Add(1), obs: ob, naive: 1}
 	srv.VerifC04SetSocket(c.sock)
 	ctx, cancel := context.WithCancel(context.Background())
 	c.cancel = cancel
@@ -702,7 +709,16 @@ func (c *caseCtx) step(s sym, judge bool) bool {
 		names[i] = fmt.Sprintf("%s(sid=%d)", o.Name(), o.SID)
 	}
 	c.trace = append(c.trace, fmt.Sprintf("%s => %s ; sent: [%s]", s, after.brief(), strings.Join(names, " ")))
+	c.lastEm = em
 	c.mon.frame(s, user, before, after, em, judge)
 	_, live := before.byID(s.ID)
 	return live && s.K != kPADI && s.K != kPADR
+}
+
+// placeCounter puts the session manager's id counter at v (hook; the state is
+// the one reached after v-1 (mod 65536) sessions were created).
+func (c *caseCtx) placeCounter(v uint16) {
+	c.srv.VerifC09SetNextSessionID(v)
+	c.naive = int(v)
+	c.trace = append(c.trace, fmt.Sprintf("[id counter placed at %d]", v))
 }
